@@ -66,9 +66,9 @@ func FindNaluTypes(sample []byte) []NaluType {
 		return nil
 	}
 	naluList := make([]NaluType, 0, 2)
-	var pos uint32 = 0
-	for pos < uint32(length-4) {
-		naluLength := binary.BigEndian.Uint32(sample[pos : pos+4])
+	var pos uint64 = 0
+	for pos+4 < uint64(length) {
+		naluLength := uint64(binary.BigEndian.Uint32(sample[pos : pos+4]))
 		pos += 4
 		naluType := GetNaluType(sample[pos])
 		naluList = append(naluList, naluType)
@@ -84,9 +84,9 @@ func FindNaluTypesUpToFirstVideoNALU(sample []byte) []NaluType {
 		return nil
 	}
 	naluList := make([]NaluType, 0)
-	var pos uint32 = 0
-	for pos < uint32(length-4) {
-		naluLength := binary.BigEndian.Uint32(sample[pos : pos+4])
+	var pos uint64 = 0
+	for pos+4 < uint64(length) {
+		naluLength := uint64(binary.BigEndian.Uint32(sample[pos : pos+4]))
 		pos += 4
 		naluType := GetNaluType(sample[pos])
 		naluList = append(naluList, naluType)
@@ -105,10 +105,10 @@ func IsIDRSample(sample []byte) bool {
 
 // ContainsNaluType - is specific NaluType present in sample
 func ContainsNaluType(sample []byte, specificNalType NaluType) bool {
-	var pos uint32 = 0
+	var pos uint64 = 0
 	length := len(sample)
-	for pos < uint32(length-4) {
-		naluLength := binary.BigEndian.Uint32(sample[pos : pos+4])
+	for pos+4 < uint64(length) {
+		naluLength := uint64(binary.BigEndian.Uint32(sample[pos : pos+4]))
 		pos += 4
 		naluType := GetNaluType(sample[pos])
 		if naluType == specificNalType {
@@ -140,12 +140,15 @@ func HasParameterSets(b []byte) bool {
 
 // GetParameterSets - get (multiple) SPS and PPS from a sample
 func GetParameterSets(sample []byte) (sps [][]byte, pps [][]byte) {
-	sampleLength := uint32(len(sample))
-	var pos uint32 = 0
+	sampleLength := uint64(len(sample))
+	var pos uint64 = 0
 naluLoop:
-	for pos < sampleLength {
-		naluLength := binary.BigEndian.Uint32(sample[pos : pos+4])
+	for pos+4 < sampleLength {
+		naluLength := uint64(binary.BigEndian.Uint32(sample[pos : pos+4]))
 		pos += 4
+		if pos+naluLength > sampleLength {
+			break // NAL unit extends beyond the sample
+		}
 		naluHdr := sample[pos]
 		switch naluType := GetNaluType(naluHdr); {
 		case naluType == NALU_SPS:
